@@ -214,7 +214,7 @@ func (fs LocalFileSystem) Mkdir(ctx context.Context, name string) error {
 		return err
 	}
 	if err := os.Mkdir(p, 0755); os.IsExist(err) {
-		return NewHTTPError(http.StatusMethodNotAllowed, err)
+		return NewHTTPError(http.StatusMethodNotAllowed, errFromOS(err))
 	} else {
 		return errFromOS(err)
 	}
